@@ -47,3 +47,18 @@ package vgirpc
 //@   at call (*Server).serveStream assert [once_stream] !answered && arg3 == w && arg2 == r && arg4 == req
 //@   at call (*Server).serveStream mark answered
 //@   ensures [local_answered] result == nil ==> answered
+
+// A stream call that serveOne itself refuses while knowing it is a stream call — at the
+// protocol-version gate — consumes the client's input stream before serving continues, like
+// every error exit of serveStream (the stream would otherwise be read as the next request).
+//
+//@ func (*Server).serveOne
+//@   property C02
+//@   pathflag inputDrained
+//@   at call drainInputStream assert [drainsown] arg0 == r
+//@   at call drainInputStream mark inputDrained
+//@   ensures [local_gaterefusal_drains] gateCalled && !gateAdmitted && info.Type != MethodUnary ==> inputDrained
+//@ func methodTypeString
+//@   property C02
+//@   modifies nothing
+//@   ensures [kinds] (t == MethodUnary ==> result == "unary") && (t != MethodUnary ==> result == "stream")
